@@ -1804,3 +1804,794 @@ Example join_gets_asset_nonvacuous :
 Proof.
   split; [only_pub|]. split; [reflexivity|]. split; [vm_compute; reflexivity|]. split; [repeat constructor|vm_compute; reflexivity].
 Qed.
+
+(* ================================================================================================
+   Part M: materials (inline content)
+   ================================================================================================ *)
+
+Lemma lastd_app d l1 l2 : lastd d (l1 ++ l2) = lastd (lastd d l1) l2.
+Proof. unfold lastd. apply foldl_app. Qed.
+Lemma lastd_snoc d l v : lastd d (l ++ [v]) = Some v.
+Proof. rewrite lastd_app. reflexivity. Qed.
+
+Lemma mgetp_insert m c l p x : mgetp (MState (<[p := x]> m) c l) p = x.
+Proof. unfold mgetp. simpl. rewrite lookup_insert. reflexivity. Qed.
+Lemma mgetp_insert_ne m c l c' l' p q x :
+  q <> p -> mgetp (MState (<[p := x]> m) c l) q = mgetp (MState m c' l') q.
+Proof. intros H. unfold mgetp. simpl. rewrite lookup_insert_ne by congruence. reflexivity. Qed.
+Lemma mgetp_exists s p x : mp s !! p = Some x -> mgetp s p = x.
+Proof. intros H. unfold mgetp. rewrite H. reflexivity. Qed.
+
+Lemma mexists_insert (m : gmap peer mpeer) p x y q :
+  m !! p = Some y -> is_Some (<[p := x]> m !! q) <-> is_Some (m !! q).
+Proof.
+  intros Hy. destruct (decide (q = p)) as [->|Hne].
+  - rewrite lookup_insert, Hy. split; eauto.
+  - rewrite lookup_insert_ne by congruence. reflexivity.
+Qed.
+
+Lemma mstep_publish s p c s' :
+  mstep s (MPublish p c) = Some s' ->
+  is_Some (mp s !! p) /\ mconn s' = mconn s /\ mlinks s' = mlinks s /\
+  (forall q, is_Some (mp s' !! q) <-> is_Some (mp s !! q)) /\
+  mgetp s' p = MPeer (Some c) (S (mpevents s p)) (mptok s p) /\
+  (forall q, q <> p -> mgetp s' q = mgetp s q).
+Proof.
+  simpl. destruct (mp s !! p) as [x|] eqn:Hx; [|discriminate]. intros [= <-].
+  unfold mpevents, mptok. rewrite (mgetp_exists _ _ _ Hx).
+  split; [eauto|]. split; [reflexivity|]. split; [reflexivity|]. split; [|split].
+  - intros q. simpl. eapply mexists_insert; eauto.
+  - apply mgetp_insert.
+  - intros q Hne. destruct s; simpl. apply mgetp_insert_ne. exact Hne.
+Qed.
+
+Lemma mreact1_cases x :
+  (mevents x = 0%nat /\ mreact1_peer x = (x, None)) \/
+  (exists k, mevents x = S k /\ mstore x = None /\ mreact1_peer x = (MPeer None k (mtok x), None)) \/
+  (exists k c, mevents x = S k /\ mstore x = Some c /\ mtok x = true /\ mreact1_peer x = (MPeer (Some c) k false, None)) \/
+  (exists k c, mevents x = S k /\ mstore x = Some c /\ mtok x = false /\ mreact1_peer x = (MPeer (Some c) k false, Some c)).
+Proof.
+  unfold mreact1_peer. destruct (mevents x) as [|k]; [left; auto|]. right.
+  destruct (mstore x) as [c|]; [|left; eauto]. right.
+  destruct (mtok x); [left|right]; eauto 10.
+Qed.
+
+Definition mann_links (s : mstate) (p : peer) (ann : option content) (a b : peer) : list content :=
+  match ann with
+  | Some c => if decide (a = p /\ b ∈ mdsts_of s p) then mlink s a b ++ [c] else mlink s a b
+  | None => mlink s a b
+  end.
+
+Lemma mstep_react1 s p s' :
+  NoDup (mconn s) ->
+  mstep s (MReact1 p) = Some s' ->
+  is_Some (mp s !! p) /\ mconn s' = mconn s /\
+  (forall q, is_Some (mp s' !! q) <-> is_Some (mp s !! q)) /\
+  mgetp s' p = (mreact1_peer (mgetp s p)).1 /\
+  (forall q, q <> p -> mgetp s' q = mgetp s q) /\
+  (forall a b, mlink s' a b = mann_links s p (mreact1_peer (mgetp s p)).2 a b).
+Proof.
+  intros Hnd. simpl. unfold mreact1. destruct (mp s !! p) as [x|] eqn:Hx; [|discriminate].
+  rewrite (mgetp_exists _ _ _ Hx). destruct (mreact1_peer x) as [x' ann] eqn:Hr. intros [= <-].
+  split; [eauto|]. split; [reflexivity|]. split; [|split; [|split]].
+  - intros q. simpl. eapply mexists_insert; eauto.
+  - apply mgetp_insert.
+  - intros q Hne. destruct s; simpl. apply mgetp_insert_ne. exact Hne.
+  - intros a b. unfold mlink, mann_links. simpl. destruct ann as [c|]; [|reflexivity].
+    apply lget_send_to. unfold mdsts_of. destruct (p =? host)%N; [exact Hnd|apply NoDup_singleton].
+Qed.
+
+Lemma mreact_n_run k s p : mreact_n k s p = mrun s (replicate k (MReact1 p)).
+Proof. revert s. induction k as [|k IH]; intros s; simpl; [reflexivity|]. destruct (mreact1 s p); auto. Qed.
+
+Lemma mstep_react_runs s p s' :
+  mstep s (MReact p) = Some s' -> mrun s (replicate (mpevents s p) (MReact1 p)) = Some s'.
+Proof.
+  simpl. destruct (mp s !! p) as [x|] eqn:Hx; [|discriminate]. unfold mpevents. rewrite (mgetp_exists _ _ _ Hx).
+  rewrite mreact_n_run. auto.
+Qed.
+
+Lemma mreact1s_ind (P : mstate -> Prop) p :
+  (forall s s', P s -> mstep s (MReact1 p) = Some s' -> P s') ->
+  forall k s s', P s -> mrun s (replicate k (MReact1 p)) = Some s' -> P s'.
+Proof.
+  intros Hstep. induction k as [|k IH]; intros s s' HP Hrun; simpl in Hrun.
+  - inversion Hrun; subst. exact HP.
+  - destruct (mreact1 s p) as [s1|] eqn:H1; [|discriminate]. eapply IH; [|exact Hrun]. eapply Hstep; eauto.
+Qed.
+
+Lemma mstep_deliver s src dst s' :
+  NoDup (mconn s) ->
+  mstep s (MDeliver src dst) = Some s' ->
+  exists c rest, mlink s src dst = c :: rest /\ is_Some (mp s !! dst) /\ mconn s' = mconn s /\
+  (forall q, is_Some (mp s' !! q) <-> is_Some (mp s !! q)) /\
+  mgetp s' dst = MPeer (Some c) (S (mpevents s dst)) true /\
+  (forall q, q <> dst -> mgetp s' q = mgetp s q) /\
+  (forall a b, mlink s' a b =
+     (if decide ((a, b) = (src, dst)) then rest else mlink s a b) ++
+     (if decide (dst = host /\ a = host /\ b ∈ others src (mconn s)) then [c] else [])).
+Proof.
+  intros Hnd. simpl. destruct (mlink s src dst) as [|c rest] eqn:Hl; [discriminate|].
+  destruct (mp s !! dst) as [x|] eqn:Hx; [|discriminate]. intros [= <-]. exists c, rest.
+  unfold mpevents. rewrite (mgetp_exists _ _ _ Hx).
+  split; [reflexivity|]. split; [eauto|]. split; [reflexivity|]. split; [|split; [|split]].
+  - intros q. simpl. eapply mexists_insert; eauto.
+  - apply mgetp_insert.
+  - intros q Hne. destruct s; simpl. apply mgetp_insert_ne. exact Hne.
+  - intros a b. unfold mlink. simpl. destruct (dst =? host)%N eqn:Hd.
+    + apply N.eqb_eq in Hd. subst dst. rewrite lget_send_to by (apply NoDup_others; exact Hnd).
+      rewrite lget_insert.
+      destruct (decide (a = host /\ b ∈ others src (mconn s))) as [[-> Hin]|Hn].
+      * destruct (decide (host = host /\ host = host /\ b ∈ others src (mconn s))) as [_|Hn]; [reflexivity|tauto].
+      * destruct (decide (host = host /\ a = host /\ b ∈ others src (mconn s))) as [[_ Hy]|_]; [tauto|].
+        rewrite app_nil_r. reflexivity.
+    + apply N.eqb_neq in Hd. rewrite lget_insert.
+      destruct (decide (dst = host /\ _)) as [[Hy _]|_]; [contradiction|]. rewrite app_nil_r. reflexivity.
+Qed.
+
+Definition msnapshot (s : mstate) : list content := match mpstore s host with Some v => [v] | None => [] end.
+
+Lemma mstep_join s c s' :
+  mstep s (MJoin c) = Some s' ->
+  c <> host /\ c ∉ mconn s /\ mp s !! c = None /\ mconn s' = mconn s ++ [c] /\
+  (forall q, is_Some (mp s' !! q) <-> is_Some (mp s !! q) \/ q = c) /\
+  (forall q, mgetp s' q = mgetp s q) /\
+  (forall a b, mlink s' a b = if decide ((a, b) = (host, c)) then mlink s host c ++ msnapshot s else mlink s a b).
+Proof.
+  simpl. destruct (c =? host)%N eqn:Hc; [discriminate|]. apply N.eqb_neq in Hc.
+  destruct (bool_decide (c ∈ mconn s)) eqn:Hin; [discriminate|]. apply bool_decide_eq_false in Hin.
+  destruct (bool_decide (is_Some (mp s !! c))) eqn:Hex; [discriminate|].
+  apply bool_decide_eq_false in Hex. simpl. intros [= <-].
+  assert (Hnone : mp s !! c = None) by (destruct (mp s !! c); [exfalso; eauto|reflexivity]).
+  split; [exact Hc|]. split; [exact Hin|]. split; [exact Hnone|]. split; [reflexivity|]. split; [|split].
+  - intros q. simpl. destruct (decide (q = c)) as [->|Hne].
+    + rewrite lookup_insert. split; eauto.
+    + rewrite lookup_insert_ne by congruence. split; [auto|]. intros [H|H]; [exact H|contradiction].
+  - intros q. unfold mgetp. simpl. destruct (decide (q = c)) as [->|Hne].
+    + rewrite lookup_insert, Hnone. reflexivity.
+    + rewrite lookup_insert_ne by congruence. reflexivity.
+  - intros a b. unfold mlink, msnapshot. simpl. destruct (mpstore s host) as [v|].
+    + apply lget_push_link.
+    + cdec as [Heq|_]; [|reflexivity]. inversion Heq; subst. rewrite app_nil_r. reflexivity.
+Qed.
+
+(* ---------- well-formedness ----------------------------------------------------------------------- *)
+
+Lemma mwf_nodup s : mwf s -> NoDup (mconn s).
+Proof. intros (H & _). exact H. Qed.
+Lemma mwf_host s : mwf s -> host ∉ mconn s.
+Proof. intros (_ & H & _). exact H. Qed.
+Lemma mwf_exists s p : mwf s -> is_Some (mp s !! p) <-> mpeers s p.
+Proof. intros (_ & _ & H & _). apply H. Qed.
+Lemma mwf_link s a b : mwf s -> mlink s a b <> [] -> (a = host /\ b ∈ mconn s) \/ (b = host /\ a ∈ mconn s).
+Proof. intros (_ & _ & _ & H). apply H. Qed.
+Lemma mwf_link_hh s : mwf s -> mlink s host host = [].
+Proof.
+  intros Hwf. destruct (mlink s host host) eqn:Hl; [reflexivity|].
+  destruct (mwf_link s host host Hwf) as [[_ H]|[_ H]]; [rewrite Hl; discriminate| |]; exfalso; apply (mwf_host s Hwf H).
+Qed.
+
+Lemma mstep_wf_plain1 s e s' :
+  match e with MReact _ => False | _ => True end ->
+  mwf s -> mstep s e = Some s' -> mwf s'.
+Proof.
+  intros He Hwf Hstep. pose proof Hwf as (Hnd & Hh & Hex & Hlk). destruct e as [p v|p|p|src dst|c]; [|contradiction| | |].
+  - apply mstep_publish in Hstep as (_ & Hc & Hl & He' & _).
+    unfold mwf, mlink, mpeers. rewrite Hc, Hl. repeat split; try assumption.
+    + intros H. apply Hex, He', H. + intros H. apply He', Hex, H.
+  - apply mstep_react1 in Hstep as (Hp & Hc & He' & _ & _ & Hl); [|exact Hnd].
+    unfold mwf, mpeers. rewrite Hc. repeat split; try assumption.
+    + intros H. apply Hex, He', H. + intros H. apply He', Hex, H.
+    + intros a b. rewrite Hl. unfold mann_links. destruct (mreact1_peer (mgetp s p)).2 as [c|]; [|apply Hlk].
+      destruct (decide (a = p /\ b ∈ mdsts_of s p)) as [(-> & Hin)|_]; [|apply Hlk].
+      intros _. unfold mdsts_of in Hin. destruct (p =? host)%N eqn:Hph.
+      * apply N.eqb_eq in Hph. left. auto.
+      * apply N.eqb_neq in Hph. apply elem_of_list_singleton in Hin. right. split; [exact Hin|].
+        apply Hex in Hp as [Hp|Hp]; [contradiction|exact Hp].
+  - apply mstep_deliver in Hstep as (o & rest & Hl0 & Hd & Hc & He' & _ & _ & Hl); [|exact Hnd].
+    unfold mwf, mpeers. rewrite Hc. repeat split; try assumption.
+    + intros H. apply Hex, He', H. + intros H. apply He', Hex, H.
+    + intros a b. rewrite Hl.
+      destruct (decide (dst = host /\ a = host /\ b ∈ others src (mconn s))) as [(_ & -> & Hin)|_].
+      * intros _. left. split; [reflexivity|]. apply elem_of_others in Hin. tauto.
+      * rewrite app_nil_r. destruct (decide ((a, b) = (src, dst))) as [Heq|_]; [|apply Hlk].
+        inversion Heq; subst. intros _. apply Hlk. rewrite Hl0. discriminate.
+  - apply mstep_join in Hstep as (Hc0 & Hcn & Hnone & Hc & He' & _ & Hl).
+    unfold mwf, mpeers. rewrite Hc. split; [|split; [|split]].
+    + apply NoDup_app. split; [exact Hnd|]. split; [|apply NoDup_singleton].
+      intros x Hx Hx'. apply elem_of_list_singleton in Hx'. subst. contradiction.
+    + intros H. apply elem_of_app in H as [H|H]; [contradiction|]. apply elem_of_list_singleton in H. congruence.
+    + intros q. rewrite He', Hex. unfold mpeers. rewrite elem_of_app, elem_of_list_singleton. tauto.
+    + intros a b. rewrite Hl. rewrite elem_of_app, elem_of_app, !elem_of_list_singleton.
+      destruct (decide ((a, b) = (host, c))) as [Heq|_].
+      * inversion Heq; subst. intros _. left. auto.
+      * intros H. apply Hlk in H. tauto.
+Qed.
+
+Lemma mstep_wf s e s' : mwf s -> mstep s e = Some s' -> mwf s'.
+Proof.
+  intros Hwf Hstep. destruct e as [p v|p|p|src dst|c]; try (eapply mstep_wf_plain1; [|exact Hwf|exact Hstep]; exact I).
+  apply mstep_react_runs in Hstep. eapply (mreact1s_ind mwf p); [|exact Hwf|exact Hstep].
+  intros s1 s2 H1 H2. eapply mstep_wf_plain1; [|exact H1|exact H2]. exact I.
+Qed.
+
+Lemma mrun_wf s tr s' : mwf s -> mrun s tr = Some s' -> mwf s'.
+Proof.
+  revert s. induction tr as [|e tr IH]; intros s Hwf Hrun; simpl in Hrun.
+  - congruence.
+  - destruct (mstep s e) as [s1|] eqn:Hs; [|discriminate]. eapply IH; [|exact Hrun]. eapply mstep_wf; eauto.
+Qed.
+
+Lemma minit_getp n p : mgetp (minit n) p = mpeer0.
+Proof.
+  unfold mgetp. destruct (mp (minit n) !! p) as [x|] eqn:Hx; [|reflexivity]. simpl.
+  unfold minit in Hx; cbn [mp] in Hx. apply elem_of_list_to_map_2 in Hx. apply elem_of_list_fmap in Hx as (q & Heq & _). congruence.
+Qed.
+Lemma minit_link n a b : mlink (minit n) a b = [].
+Proof. reflexivity. Qed.
+
+Lemma minit_wf n : mwf (minit n).
+Proof.
+  unfold mwf. split; [apply NoDup_clients|]. split; [|split].
+  - simpl. rewrite elem_of_clients. unfold host. lia.
+  - intros p. unfold minit, mpeers; cbn [mp mconn].
+    set (l := (fun p => (p, mpeer0)) <$> host :: clients n).
+    assert (Hfst : l.*1 = host :: clients n).
+    { unfold l. rewrite <- list_fmap_compose. simpl. f_equal. induction (clients n); simpl; congruence. }
+    split.
+    + intros [x Hx]. apply elem_of_list_to_map_2 in Hx. apply (elem_of_list_fmap_1 fst) in Hx.
+      rewrite Hfst in Hx. simpl in Hx. apply elem_of_cons in Hx. exact Hx.
+    + intros Hp. destruct (list_to_map l !! p) eqn:Hx; [eauto|].
+      apply not_elem_of_list_to_map in Hx. rewrite Hfst in Hx. exfalso. apply Hx. apply elem_of_cons. exact Hp.
+  - intros a b H. exfalso. apply H. reflexivity.
+Qed.
+
+Lemma mquiescent_link s a b : mquiescent s -> mlink s a b = [].
+Proof.
+  intros [H _]. unfold mlink, lget. destruct (mlinks s !! (a, b)) as [l|] eqn:Hl; [|reflexivity]. simpl. eapply H. exact Hl.
+Qed.
+Lemma mquiescent_peer s p : mquiescent s -> mpevents s p = 0%nat /\ mptok s p = false.
+Proof.
+  intros [_ H]. unfold mpevents, mptok, mgetp. destruct (mp s !! p) as [x|] eqn:Hx; simpl; [|auto].
+  apply (H p x Hx).
+Qed.
+Lemma mquiescent_intro s :
+  (forall a b, mlink s a b = []) -> (forall p, mpevents s p = 0%nat /\ mptok s p = false) -> mquiescent s.
+Proof.
+  intros Hl Hp. split.
+  - intros [a b] l Hx. specialize (Hl a b). unfold mlink, lget in Hl. rewrite Hx in Hl. exact Hl.
+  - intros p x Hx. specialize (Hp p). unfold mpevents, mptok, mgetp in Hp. rewrite Hx in Hp. exact Hp.
+Qed.
+Lemma minit_quiescent n : mquiescent (minit n).
+Proof.
+  apply mquiescent_intro; [intros; apply minit_link|]. intros p. unfold mpevents, mptok. rewrite minit_getp. auto.
+Qed.
+
+(* ---------- the single-publisher invariant for materials -------------------------------------------
+   [mlatest w s q]: what q will hold once everything on its way from w has arrived (the channels are
+   FIFO and the host relays in order).  Outside S7 it is w's store unless an event of w is unread. *)
+
+Definition mlatest (w : peer) (s : mstate) (q : peer) : option content :=
+  lastd (mpstore s q) (mlink s host q ++ mlink s w host).
+
+Record MInv (w : peer) (s : mstate) : Prop := {
+  mi_w : is_Some (mp s !! w);
+  mi_tok : mptok s w = false;
+  mi_in : forall a, mlink s a w = [];
+  mi_up : forall c, c <> w -> mlink s c host = [];
+  mi_recv : forall q, q <> w ->
+              (mpevents s q = 0%nat /\ mptok s q = false) \/ (mpevents s q = 1%nat /\ mptok s q = true);
+  mi_ev_store : forall q, mpevents s q <> 0%nat -> mpstore s q <> None;
+  mi_latest : forall q, mpeers s q -> q <> w -> mlatest w s q = mpstore s w \/ mpevents s w <> 0%nat
+}.
+
+Definition mev_ok (w : peer) (e : mevent) : Prop := match e with MPublish q _ => q = w | _ => True end.
+Definition mstore_after (w : peer) (s : mstate) (e : mevent) : option content :=
+  match e with MPublish _ c => Some c | _ => mpstore s w end.
+
+Lemma minv_ext w s s' :
+  (forall q, mgetp s' q = mgetp s q) -> (forall a b, mlink s' a b = mlink s a b) -> mconn s' = mconn s ->
+  (forall q, is_Some (mp s' !! q) <-> is_Some (mp s !! q)) ->
+  MInv w s -> MInv w s'.
+Proof.
+  intros Hg Hl Hc He HI. destruct HI.
+  constructor; unfold mlatest, mpeers, mpstore, mpevents, mptok in *; intros; rewrite ?Hg, ?Hl, ?Hc in *; eauto.
+  apply He. exact mi_w0.
+Qed.
+
+Lemma mnot_in_dsts s p : mwf s -> p ∉ mdsts_of s p.
+Proof.
+  intros Hwf. unfold mdsts_of. destruct (p =? host)%N eqn:E.
+  - apply N.eqb_eq in E. subst. apply mwf_host, Hwf.
+  - apply N.eqb_neq in E. intros H. apply elem_of_list_singleton in H. contradiction.
+Qed.
+
+Lemma mdeliver_shape w s src dst c rest :
+  mwf s -> MInv w s -> mlink s src dst = c :: rest ->
+  dst <> w /\
+  ((src = host /\ dst ∈ mconn s /\ dst <> host) \/ (dst = host /\ src = w /\ w <> host /\ w ∈ mconn s)).
+Proof.
+  intros Hwf HI Hl0.
+  assert (Hne0 : mlink s src dst <> []) by (rewrite Hl0; discriminate).
+  assert (Hdw : dst <> w). { intros ->. rewrite (mi_in _ _ HI) in Hne0. congruence. }
+  split; [exact Hdw|].
+  destruct (mwf_link s src dst Hwf Hne0) as [[-> Hin]|[-> Hin]].
+  - left. split; [reflexivity|]. split; [exact Hin|]. intros ->. apply (mwf_host s Hwf Hin).
+  - right. split; [reflexivity|]. destruct (decide (src = w)) as [->|Hn].
+    + split; [reflexivity|]. split; [|exact Hin]. intros ->. apply (mwf_host s Hwf Hin).
+    + rewrite (mi_up _ _ HI src Hn) in Hne0. congruence.
+Qed.
+
+Lemma minv_step1 w s e s' :
+  match e with MReact _ => False | _ => True end ->
+  mwf s -> MInv w s -> mev_ok w e -> mbad_S7 s e = false -> mstep s e = Some s' ->
+  MInv w s' /\ mpstore s' w = mstore_after w s e.
+Proof.
+  intros Hnb Hwf HI Hok Hbad Hstep. pose proof (mwf_nodup s Hwf) as Hnd. pose proof (mwf_link_hh s Hwf) as Hhh.
+  destruct e as [p v|p|p|src dst|c]; [|contradiction| | |].
+  - (* MPublish *)
+    simpl in Hok. subst p.
+    apply mstep_publish in Hstep as (_ & Hc & Hl & Hex & Hp & Hq).
+    assert (Hlk : forall a b, mlink s' a b = mlink s a b) by (intros; unfold mlink; rewrite Hl; reflexivity).
+    destruct HI. split; [|unfold mpstore; rewrite Hp; reflexivity].
+    constructor; unfold mpeers; intros; rewrite ?Hlk, ?Hc in *; eauto.
+    + apply Hex. exact mi_w0.
+    + unfold mptok. rewrite Hp. exact mi_tok0.
+    + unfold mpevents, mptok. rewrite Hq by assumption. apply mi_recv0. assumption.
+    + destruct (decide (q = w)) as [->|Hne]; [unfold mpstore; rewrite Hp; discriminate|].
+      unfold mpstore, mpevents in *. rewrite Hq in * by assumption. auto.
+    + right. unfold mpevents. rewrite Hp. discriminate.
+  - (* MReact1 *)
+    apply mstep_react1 in Hstep as (Hex & Hc & Hex' & Hp & Hq & Hl); [|exact Hnd].
+    assert (Hst : mpstore s' w = mpstore s w).
+    { unfold mpstore. destruct (decide (w = p)) as [->|Hne]; [|rewrite Hq by assumption; reflexivity].
+      rewrite Hp. destruct (mreact1_cases (mgetp s p)) as [[_ E]|[(k & _ & E0 & E)|[(k & c & _ & E0 & _ & E)|(k & c & _ & E0 & _ & E)]]];
+        rewrite E; simpl; congruence. }
+    split; [|exact Hst].
+    destruct (mreact1_cases (mgetp s p)) as [[E0 E]|[(k & E0 & E1 & E)|[(k & c & E0 & E1 & E2 & E)|(k & c & E0 & E1 & E2 & E)]]].
+    + eapply minv_ext; [| |exact Hc|exact Hex'|exact HI].
+      * intros q. destruct (decide (q = p)) as [->|Hne]; [rewrite Hp, E; reflexivity|apply Hq; exact Hne].
+      * intros a b. rewrite Hl, E. reflexivity.
+    + exfalso. eapply (mi_ev_store _ _ HI p); [unfold mpevents; rewrite E0; discriminate|exact E1].
+    + assert (Hpw : p <> w). { intros ->. pose proof (mi_tok _ _ HI) as Ht. unfold mptok in Ht. congruence. }
+      assert (Hk : k = 0%nat).
+      { destruct (mi_recv _ _ HI p Hpw) as [[H0 _]|[H1 _]]; unfold mpevents in *; [congruence|lia]. }
+      subst k. rewrite E in Hp, Hl. cbn [fst snd] in Hp, Hl.
+      assert (Hlk : forall a b, mlink s' a b = mlink s a b) by (intros; rewrite Hl; reflexivity).
+      assert (Hsto : forall q, mpstore s' q = mpstore s q).
+      { intros q. unfold mpstore. destruct (decide (q = p)) as [->|Hne]; [rewrite Hp; simpl; congruence|rewrite Hq by assumption; reflexivity]. }
+      destruct HI. constructor; unfold mpeers, mlatest; intros; rewrite ?Hlk, ?Hc, ?Hsto in *; eauto.
+      * apply Hex'. exact mi_w0.
+      * unfold mptok. rewrite Hq by congruence. exact mi_tok0.
+      * destruct (decide (q = p)) as [->|Hne].
+        -- left. unfold mpevents, mptok. rewrite Hp. auto.
+        -- unfold mpevents, mptok. rewrite Hq by assumption. apply mi_recv0. assumption.
+      * destruct (decide (q = p)) as [->|Hne]; [unfold mpevents in H; rewrite Hp in H; simpl in H; congruence|].
+        unfold mpevents in *. rewrite Hq in * by assumption. auto.
+      * unfold mpevents. rewrite (Hq w) by congruence. apply mi_latest0; assumption.
+    + destruct (decide (p = w)) as [->|Hpw].
+      2:{ exfalso. destruct (mi_recv _ _ HI p Hpw) as [[H0 _]|[_ H1]]; unfold mpevents, mptok in *; congruence. }
+      rewrite E in Hp, Hl. cbn [fst snd] in Hp, Hl. unfold mann_links in Hl.
+      assert (Hsw : mpstore s' w = Some c) by (unfold mpstore; rewrite Hp; reflexivity).
+      destruct HI. constructor; unfold mpeers; intros; rewrite ?Hc in *.
+      * apply Hex'. exact mi_w0.
+      * unfold mptok. rewrite Hp. reflexivity.
+      * rewrite Hl. cdec as [[_ Hin]|_]; [exfalso; eapply mnot_in_dsts; eauto|apply mi_in0].
+      * rewrite Hl. cdec as [[Heq _]|_]; [contradiction|apply mi_up0; assumption].
+      * unfold mpevents, mptok. rewrite Hq by assumption. apply mi_recv0. assumption.
+      * destruct (decide (q = w)) as [->|Hne]; [rewrite Hsw; discriminate|].
+        unfold mpstore, mpevents in *. rewrite Hq in * by assumption. auto.
+      * left. rewrite Hsw. unfold mlatest. rewrite !Hl. unfold mdsts_of. destruct (decide (w = host)) as [->|Hwh].
+        -- change (host =? host)%N with true. cbv iota.
+           destruct (decide (host = host /\ host ∈ mconn s)) as [[_ Hin]|_]; [exfalso; apply (mwf_host s Hwf Hin)|].
+           destruct (decide (host = host /\ q ∈ mconn s)) as [_|Hn].
+           ++ rewrite Hhh, app_nil_r. apply lastd_snoc.
+           ++ exfalso. apply Hn. split; [reflexivity|]. destruct H as [?|?]; [contradiction|assumption].
+        -- destruct (w =? host)%N eqn:E'; [apply N.eqb_eq in E'; contradiction|].
+           destruct (decide (w = w /\ host ∈ [host])) as [_|Hn]; [|exfalso; apply Hn; split; [reflexivity|apply elem_of_list_singleton; reflexivity]].
+           destruct (decide (host = w /\ _)) as [[Hf _]|_]; [congruence|].
+           rewrite app_assoc. apply lastd_snoc.
+  - (* MDeliver *)
+    apply mstep_deliver in Hstep as (c & rest & Hl0 & Hd & Hc & Hex' & Hp & Hq & Hl); [|exact Hnd].
+    destruct (mdeliver_shape w s src dst c rest Hwf HI Hl0) as (Hdw & Hshape).
+    simpl in Hbad. rewrite Hl0 in Hbad. apply negb_false_iff, Nat.eqb_eq in Hbad.
+    assert (Hp' : mgetp s' dst = MPeer (Some c) 1 true) by (rewrite Hp, Hbad; reflexivity).
+    assert (Hsw : mpstore s' w = mpstore s w) by (unfold mpstore; rewrite Hq by congruence; reflexivity).
+    assert (Hew : mpevents s' w = mpevents s w) by (unfold mpevents; rewrite Hq by congruence; reflexivity).
+    split; [|exact Hsw].
+    destruct HI. constructor; unfold mpeers; intros; rewrite ?Hc in *.
+    + apply Hex'. exact mi_w0.
+    + unfold mptok. rewrite Hq by congruence. exact mi_tok0.
+    + rewrite Hl. destruct (decide ((a, w) = (src, dst))) as [Heq|_]; [inversion Heq; congruence|].
+      rewrite mi_in0. cbn [app]. cdec as [(Hdh & _ & Hin)|_]; [|reflexivity].
+      apply elem_of_others in Hin as [Hn _]. destruct Hshape as [(_ & _ & ?)|(? & ? & _)]; congruence.
+    + rewrite Hl. destruct (decide ((c0, host) = (src, dst))) as [Heq|_].
+      * inversion Heq; subst. destruct Hshape as [(_ & _ & ?)|(_ & ? & _)]; congruence.
+      * rewrite mi_up0 by assumption. cbn [app]. cdec as [(_ & _ & Hin)|_]; [|reflexivity].
+        apply elem_of_others in Hin as [_ Hin]. exfalso. apply (mwf_host s Hwf Hin).
+    + destruct (decide (q = dst)) as [->|Hne].
+      * right. unfold mpevents, mptok. rewrite Hp'. auto.
+      * unfold mpevents, mptok. rewrite Hq by assumption. apply mi_recv0. assumption.
+    + destruct (decide (q = dst)) as [->|Hne]; [unfold mpstore; rewrite Hp'; discriminate|].
+      unfold mpstore, mpevents in *. rewrite Hq in * by assumption. auto.
+    + rewrite Hsw, Hew.
+      assert (Hsame : mlatest w s' q = mlatest w s q); [|rewrite Hsame; apply mi_latest0; assumption].
+      unfold mlatest. rewrite !Hl.
+      destruct Hshape as [(-> & Hin & Hdh)|(-> & -> & Hwh & Hin)].
+      * destruct (decide ((w, host) = (host, dst))) as [Heq|_]; [inversion Heq; congruence|].
+        destruct (decide (dst = host /\ _)) as [[? _]|_]; [contradiction|].
+        destruct (decide (dst = host /\ _)) as [[? _]|_]; [contradiction|]. rewrite !app_nil_r.
+        destruct (decide (q = dst)) as [->|Hnq].
+        -- destruct (decide ((host, dst) = (host, dst))) as [_|?]; [|congruence].
+           unfold mpstore at 1. rewrite Hp'. cbn [mstore]. rewrite Hl0. reflexivity.
+        -- destruct (decide ((host, q) = (host, dst))) as [Heq|_]; [inversion Heq; congruence|].
+           unfold mpstore. rewrite Hq by assumption. reflexivity.
+      * destruct (decide ((w, host) = (w, host))) as [_|?]; [|congruence].
+        destruct (decide (host = host /\ w = host /\ _)) as [(_ & ? & _)|_]; [contradiction|]. rewrite app_nil_r.
+        destruct (decide (q = host)) as [->|Hnq].
+        -- destruct (decide ((host, host) = (w, host))) as [Heq|_]; [inversion Heq; congruence|].
+           destruct (decide (host = host /\ host = host /\ host ∈ others w (mconn s))) as [(_ & _ & Hin')|_].
+           { apply elem_of_others in Hin' as [_ Hin']. exfalso. apply (mwf_host s Hwf Hin'). }
+           rewrite app_nil_r, Hhh. unfold mpstore at 1. rewrite Hp'. cbn [mstore app]. rewrite Hl0. reflexivity.
+        -- destruct (decide ((host, q) = (w, host))) as [Heq|_]; [inversion Heq; congruence|].
+           destruct (decide (host = host /\ host = host /\ q ∈ others w (mconn s))) as [_|Hn].
+           ++ unfold mpstore. rewrite Hq by assumption. rewrite Hl0, <- app_assoc. reflexivity.
+           ++ exfalso. apply Hn. split; [reflexivity|]. split; [reflexivity|]. apply elem_of_others. split; [assumption|].
+              destruct H as [?|?]; [contradiction|assumption].
+  - (* MJoin *)
+    apply mstep_join in Hstep as (Hch & Hcn & Hnone & Hc & Hex' & Hg & Hl).
+    assert (Hcw : c <> w). { intros ->. destruct (mi_w _ _ HI) as [x Hx]. congruence. }
+    split; [|unfold mstore_after, mpstore; rewrite Hg; reflexivity].
+    assert (Hlc0 : mlink s host c = []).
+    { destruct (mlink s host c) eqn:E; [reflexivity|]. destruct (mwf_link s host c Hwf) as [[_ H]|[H _]]; [rewrite E; discriminate|contradiction|congruence]. }
+    destruct HI. constructor; unfold mpeers, mpstore, mpevents, mptok; intros; rewrite ?Hg in *.
+    + apply Hex'. left. exact mi_w0.
+    + exact mi_tok0.
+    + rewrite Hl. cdec as [Heq|_]; [inversion Heq; congruence|apply mi_in0].
+    + rewrite Hl. cdec as [Heq|_]; [inversion Heq; congruence|apply mi_up0; assumption].
+    + apply mi_recv0. assumption.
+    + apply mi_ev_store0. assumption.
+    + fold (mpstore s w). fold (mpevents s w). unfold mlatest, mpstore. rewrite Hg. fold (mpstore s q). rewrite !Hl.
+      destruct (decide ((w, host) = (host, c))) as [Heq|_]; [inversion Heq; congruence|].
+      destruct (decide (q = c)) as [->|Hnq].
+      * destruct (decide ((host, c) = (host, c))) as [_|?]; [|congruence]. rewrite Hlc0. cbn [app].
+        assert (Hsc : mpstore s c = None) by (unfold mpstore, mgetp; rewrite Hnone; reflexivity). rewrite Hsc.
+        destruct (decide (w = host)) as [->|Hwh].
+        -- left. rewrite Hhh, app_nil_r. unfold msnapshot, mpstore. destruct (mstore (mgetp s host)); reflexivity.
+        -- assert (Hh : mlatest w s host = lastd None (msnapshot s ++ mlink s w host)).
+           { unfold mlatest, msnapshot. rewrite Hhh. destruct (mpstore s host); reflexivity. }
+           rewrite <- Hh. apply mi_latest0; [left; reflexivity|congruence].
+      * destruct (decide ((host, q) = (host, c))) as [Heq|_]; [inversion Heq; congruence|].
+        apply mi_latest0; [|assumption]. destruct H as [H|H]; [left; exact H|]. rewrite Hc in H.
+        apply elem_of_app in H as [H|H]; [right; exact H|]. apply elem_of_list_singleton in H. contradiction.
+Qed.
+
+Lemma minv_step w s e s' :
+  mwf s -> MInv w s -> mev_ok w e -> mbad_S7 s e = false -> mstep s e = Some s' ->
+  MInv w s' /\ mpstore s' w = mstore_after w s e.
+Proof.
+  intros Hwf HI Hok Hbad Hstep.
+  destruct e as [p v|p|p|src dst|c]; try (eapply minv_step1; eauto; exact I).
+  apply mstep_react_runs in Hstep.
+  pose (P := fun s1 => mwf s1 /\ MInv w s1 /\ mpstore s1 w = mpstore s w).
+  assert (HP : P s') ; [|destruct HP as (_ & H1 & H2); split; [exact H1|exact H2]].
+  eapply (mreact1s_ind P p); [|split; [exact Hwf|split; [exact HI|reflexivity]]|exact Hstep].
+  intros s1 s2 (Hw1 & HI1 & Hs1) H12. split; [eapply mstep_wf; eauto|].
+  destruct (minv_step1 w s1 (MReact1 p) s2 I Hw1 HI1 I eq_refl H12) as [HI2 Hs2].
+  split; [exact HI2|]. rewrite Hs2. exact Hs1.
+Qed.
+
+Lemma mpublished_cons e tr :
+  mpublished (e :: tr) = match e with MPublish _ c => c :: mpublished tr | _ => mpublished tr end.
+Proof. destruct e; reflexivity. Qed.
+
+Lemma mstore_after_lastd w s e tr :
+  lastd (mstore_after w s e) (mpublished tr) = lastd (mpstore s w) (mpublished (e :: tr)).
+Proof. rewrite mpublished_cons. destruct e; reflexivity. Qed.
+
+Lemma minv_run w tr : forall s s',
+  mwf s -> MInv w s -> Forall (mev_ok w) tr -> mscan mbad_S7 s tr = false -> mrun s tr = Some s' ->
+  mwf s' /\ MInv w s' /\ mpstore s' w = lastd (mpstore s w) (mpublished tr).
+Proof.
+  induction tr as [|e tr IH]; intros s s' Hwf HI Hok Hbad Hrun.
+  - simpl in Hrun. inversion Hrun; subst. auto.
+  - cbn [mrun] in Hrun. cbn [mscan] in Hbad. destruct (mstep s e) as [s1|] eqn:Hstep; [|discriminate].
+    apply orb_false_iff in Hbad as [Hb1 Hb2]. apply Forall_cons in Hok as [He Hok].
+    destruct (minv_step w s e s1 Hwf HI He Hb1 Hstep) as [HI1 Hs1].
+    destruct (IH s1 s' (mstep_wf _ _ _ Hwf Hstep) HI1 Hok Hb2 Hrun) as (Hwf' & HI' & Hs').
+    split; [exact Hwf'|]. split; [exact HI'|]. rewrite Hs', Hs1. apply mstore_after_lastd.
+Qed.
+
+Lemma minv_init w n : mpeers (minit n) w -> MInv w (minit n).
+Proof.
+  intros Hw. constructor; unfold mlatest, mpstore, mpevents, mptok; intros; rewrite ?minit_getp, ?minit_link in *; simpl; auto.
+  apply (mwf_exists _ _ (minit_wf n)). exact Hw.
+Qed.
+
+Lemma mev_ok_of w tr : monly_publisher w tr -> Forall (mev_ok w) tr.
+Proof.
+  unfold monly_publisher. induction tr as [|e tr IH]; intros Hp; [constructor|].
+  destruct e as [p v|p|p|src dst|c]; simpl in Hp; try (constructor; [exact I|apply IH; assumption]).
+  apply Forall_cons in Hp as [-> Hp]. constructor; [reflexivity|apply IH; assumption].
+Qed.
+
+Lemma minv_quiescent_agree w s : MInv w s -> mquiescent s -> forall q, mpeers s q -> mpstore s q = mpstore s w.
+Proof.
+  intros HI Hq q Hpq. destruct (decide (q = w)) as [->|Hne]; [reflexivity|].
+  destruct (mquiescent_peer s w Hq) as (Hew & _).
+  destruct (mi_latest _ _ HI q Hpq Hne) as [H|H]; [|contradiction].
+  unfold mlatest in H. rewrite !(mquiescent_link s _ _ Hq) in H. exact H.
+Qed.
+
+(* Materials, one publisher (present from the start), bursts and overwrites, fresh clients joining at ANY
+   moment, every interleaving: outside the class S7 every quiescent state shows the last published content
+   on every peer. *)
+Theorem M06_single_publisher_outside_S7 n w tr s' :
+  mrun (minit n) tr = Some s' -> mpeers (minit n) w -> monly_publisher w tr ->
+  mknown_S7 (minit n) tr = false -> mquiescent s' ->
+  forall q, mpeers s' q -> mpstore s' q = last (mpublished tr).
+Proof.
+  intros Hrun Hw Hop Hk Hq q Hpq.
+  destruct (minv_run w tr (minit n) s' (minit_wf n) (minv_init w n Hw) (mev_ok_of w tr Hop) Hk Hrun) as (_ & HI & Hs).
+  rewrite (minv_quiescent_agree w s' HI Hq q Hpq), Hs.
+  unfold mpstore at 1. rewrite minit_getp. apply lastd_None_last.
+Qed.
+Print Assumptions M06_single_publisher_outside_S7.
+
+(* ---------- drain separation for materials ---------------------------------------------------------- *)
+
+Definition MK (w : peer) (s : mstate) : nat := (mpevents s w + length (mlink s w host))%nat.
+Definition MCnt (w : peer) (s : mstate) : Prop :=
+  forall q, mpeers s q -> q <> w -> (MK w s + length (mlink s host q) + mpevents s q <= 1)%nat.
+
+Lemma mcnt_ext w s s' :
+  (forall q, mgetp s' q = mgetp s q) -> (forall a b, mlink s' a b = mlink s a b) -> mconn s' = mconn s ->
+  MCnt w s -> MCnt w s'.
+Proof.
+  intros Hg Hl Hc HC q Hp Hne. unfold MK, mpeers, mpevents in *. rewrite ?Hg, ?Hl, ?Hc in *. apply HC; assumption.
+Qed.
+
+Lemma mcnt_step1 w s e s' :
+  match e with MReact1 _ | MDeliver _ _ => True | _ => False end ->
+  mwf s -> MInv w s -> MCnt w s -> mstep s e = Some s' -> MCnt w s' /\ mbad_S7 s e = false.
+Proof.
+  intros He Hwf HI HC Hstep. pose proof (mwf_nodup s Hwf) as Hnd. pose proof (mwf_link_hh s Hwf) as Hhh.
+  destruct e as [p v|p|p|src dst|c]; try contradiction.
+  - (* MReact1 *)
+    split; [|reflexivity].
+    apply mstep_react1 in Hstep as (Hex & Hc & _ & Hp & Hq & Hl); [|exact Hnd].
+    destruct (mreact1_cases (mgetp s p)) as [[E0 E]|[(k & E0 & E1 & E)|[(k & c & E0 & E1 & E2 & E)|(k & c & E0 & E1 & E2 & E)]]].
+    + eapply mcnt_ext; [| |exact Hc|exact HC].
+      * intros q. destruct (decide (q = p)) as [->|Hne]; [rewrite Hp, E; reflexivity|apply Hq; exact Hne].
+      * intros a b. rewrite Hl, E. reflexivity.
+    + exfalso. eapply (mi_ev_store _ _ HI p); [unfold mpevents; rewrite E0; discriminate|exact E1].
+    + assert (Hpw : p <> w). { intros ->. pose proof (mi_tok _ _ HI) as Ht. unfold mptok in Ht. congruence. }
+      rewrite E in Hp, Hl. cbn [fst snd] in Hp, Hl.
+      assert (Hlk : forall a b, mlink s' a b = mlink s a b) by (intros; rewrite Hl; reflexivity).
+      intros q Hpq Hne. unfold mpeers in Hpq. rewrite Hc in Hpq. specialize (HC q Hpq Hne).
+      unfold MK, mpevents in *. rewrite !Hlk, (Hq w) by congruence.
+      destruct (decide (q = p)) as [->|Hnq]; [rewrite Hp; simpl; lia|rewrite Hq by assumption; exact HC].
+    + destruct (decide (p = w)) as [->|Hpw].
+      2:{ exfalso. destruct (mi_recv _ _ HI p Hpw) as [[H0 _]|[_ H1]]; unfold mpevents, mptok in *; congruence. }
+      rewrite E in Hp, Hl. cbn [fst snd] in Hp, Hl. unfold mann_links in Hl.
+      intros q Hpq Hne. unfold mpeers in Hpq. rewrite Hc in Hpq. specialize (HC q Hpq Hne).
+      unfold MK, mpevents in *. rewrite (Hq q) by assumption. rewrite Hp. cbn [mevents].
+      rewrite E0 in HC. rewrite !Hl. unfold mdsts_of. destruct (decide (w = host)) as [->|Hwh].
+      * change (host =? host)%N with true. cbv iota.
+        destruct (decide (host = host /\ host ∈ mconn s)) as [[_ Hin]|_]; [exfalso; apply (mwf_host s Hwf Hin)|].
+        destruct (decide (host = host /\ q ∈ mconn s)) as [_|Hn].
+        -- rewrite app_length. simpl. lia.
+        -- exfalso. apply Hn. split; [reflexivity|]. destruct Hpq as [?|?]; [contradiction|assumption].
+      * destruct (w =? host)%N eqn:E'; [apply N.eqb_eq in E'; contradiction|].
+        destruct (decide (w = w /\ host ∈ [host])) as [_|Hn]; [|exfalso; apply Hn; split; [reflexivity|apply elem_of_list_singleton; reflexivity]].
+        destruct (decide (host = w /\ _)) as [[Hf _]|_]; [congruence|].
+        rewrite app_length. simpl. lia.
+  - (* MDeliver *)
+    pose proof Hstep as Hstep0.
+    apply mstep_deliver in Hstep as (c & rest & Hl0 & Hd & Hc & _ & Hp & Hq & Hl); [|exact Hnd].
+    destruct (mdeliver_shape w s src dst c rest Hwf HI Hl0) as (Hdw & Hshape).
+    assert (Hpd : mpeers s dst) by (apply (mwf_exists s dst Hwf); exact Hd).
+    assert (He0 : mpevents s dst = 0%nat).
+    { pose proof (HC dst Hpd Hdw) as H. destruct Hshape as [(-> & _ & _)|(-> & -> & _ & _)].
+      - rewrite Hl0 in H. simpl in H. lia.
+      - unfold MK in H. rewrite Hl0 in H. simpl in H. lia. }
+    split; [|simpl; rewrite Hl0, He0; reflexivity].
+    assert (Hpe : mpevents s' dst = 1%nat) by (unfold mpevents at 1; rewrite Hp; cbn [mevents]; rewrite He0; reflexivity).
+    intros q Hpq Hne. unfold mpeers in Hpq. rewrite Hc in Hpq. pose proof (HC q Hpq Hne) as HCq.
+    assert (Hew : mpevents s' w = mpevents s w) by (unfold mpevents; rewrite Hq by congruence; reflexivity).
+    unfold MK in *. rewrite Hew. rewrite !Hl.
+    destruct Hshape as [(-> & Hin & Hdh)|(-> & -> & Hwh & Hin)].
+    + destruct (decide ((w, host) = (host, dst))) as [Heq|_]; [inversion Heq; congruence|].
+      destruct (decide (dst = host /\ _)) as [[? _]|_]; [contradiction|].
+      destruct (decide (dst = host /\ _)) as [[? _]|_]; [contradiction|]. rewrite !app_nil_r.
+      destruct (decide (q = dst)) as [->|Hnq].
+      * destruct (decide ((host, dst) = (host, dst))) as [_|?]; [|congruence].
+        rewrite Hpe. rewrite Hl0 in HCq. simpl in *. lia.
+      * destruct (decide ((host, q) = (host, dst))) as [Heq|_]; [inversion Heq; congruence|].
+        unfold mpevents in *. rewrite (Hq q) by assumption. exact HCq.
+    + destruct (decide ((w, host) = (w, host))) as [_|?]; [|congruence].
+      destruct (decide (host = host /\ w = host /\ _)) as [(_ & ? & _)|_]; [contradiction|]. rewrite app_nil_r.
+      rewrite Hl0 in HCq. cbn [length] in HCq.
+      destruct (decide (q = host)) as [->|Hnq].
+      * destruct (decide ((host, host) = (w, host))) as [Heq|_]; [inversion Heq; congruence|].
+        destruct (decide (host = host /\ host = host /\ host ∈ others w (mconn s))) as [(_ & _ & Hin')|_].
+        { apply elem_of_others in Hin' as [_ Hin']. exfalso. apply (mwf_host s Hwf Hin'). }
+        rewrite app_nil_r, Hpe. lia.
+      * destruct (decide ((host, q) = (w, host))) as [Heq|_]; [inversion Heq; congruence|].
+        destruct (decide (host = host /\ host = host /\ q ∈ others w (mconn s))) as [_|Hn].
+        -- unfold mpevents in *. rewrite (Hq q) by assumption. rewrite app_length. simpl. lia.
+        -- exfalso. apply Hn. split; [reflexivity|]. split; [reflexivity|]. apply elem_of_others. split; [exact Hne|].
+           destruct Hpq as [?|?]; [contradiction|assumption].
+Qed.
+
+Lemma mcnt_quiescent w s : mquiescent s -> MCnt w s.
+Proof.
+  intros Hq q _ _. unfold MK. rewrite !(mquiescent_link s _ _ Hq).
+  destruct (mquiescent_peer s w Hq) as (-> & _). destruct (mquiescent_peer s q Hq) as (-> & _). simpl. lia.
+Qed.
+
+Lemma mcnt_publish w s c s' : mquiescent s -> mstep s (MPublish w c) = Some s' -> MCnt w s'.
+Proof.
+  intros Hqs Hstep. apply mstep_publish in Hstep as (_ & Hc & Hl & _ & Hp & Hq).
+  intros q _ Hne. unfold MK, mlink, mpevents. rewrite Hl, Hp, (Hq q) by assumption. cbn [mevents].
+  fold (mlink s w host). fold (mlink s host q). rewrite !(mquiescent_link s _ _ Hqs).
+  destruct (mquiescent_peer s w Hqs) as (-> & _). destruct (mquiescent_peer s q Hqs) as (He & _).
+  unfold mpevents in *. rewrite He. simpl. lia.
+Qed.
+
+Lemma mcnt_join w s c s' : mquiescent s -> mstep s (MJoin c) = Some s' -> MCnt w s'.
+Proof.
+  intros Hqs Hstep. apply mstep_join in Hstep as (Hch & Hcn & Hnone & Hc & _ & Hg & Hl).
+  intros q _ Hne. unfold MK, mpevents. rewrite !Hg, !Hl. rewrite !(mquiescent_link s _ _ Hqs).
+  destruct (mquiescent_peer s w Hqs) as (He & _). destruct (mquiescent_peer s q Hqs) as (Heq & _).
+  unfold mpevents in *. rewrite He, Heq.
+  assert (Hs : (length (msnapshot s) <= 1)%nat) by (unfold msnapshot; destruct (mpstore s host); simpl; lia).
+  destruct (decide ((w, host) = (host, c))) as [Heq'|_]; [inversion Heq'; congruence|].
+  destruct (decide ((host, q) = (host, c))); simpl; lia.
+Qed.
+
+Lemma mds_run w tr : forall s s',
+  mwf s -> MInv w s -> MCnt w s -> Forall (mev_ok w) tr -> mops_at_quiescence s tr = true -> mrun s tr = Some s' ->
+  mwf s' /\ MInv w s' /\ MCnt w s' /\ mscan mbad_S7 s tr = false /\ mpstore s' w = lastd (mpstore s w) (mpublished tr).
+Proof.
+  induction tr as [|e tr IH]; intros s s' Hwf HI HC Hok Hops Hrun.
+  - simpl in Hrun. inversion Hrun; subst. auto.
+  - cbn [mrun] in Hrun. cbn [mops_at_quiescence] in Hops. cbn [mscan].
+    destruct (mstep s e) as [s1|] eqn:Hstep; [|discriminate].
+    apply andb_true_iff in Hops as [Hop1 Hops]. apply Forall_cons in Hok as [He Hok].
+    assert (H1 : MInv w s1 /\ MCnt w s1 /\ mbad_S7 s e = false /\ mpstore s1 w = mstore_after w s e).
+    { destruct e as [p v|p|p|src dst|c].
+      - simpl in He. subst p. simpl in Hop1. apply bool_decide_eq_true in Hop1.
+        destruct (minv_step1 w s (MPublish w v) s1 I Hwf HI eq_refl eq_refl Hstep) as [HI1 Hs1].
+        split; [exact HI1|]. split; [eapply mcnt_publish; eauto|]. split; [reflexivity|exact Hs1].
+      - apply mstep_react_runs in Hstep.
+        pose (P := fun s1 => mwf s1 /\ MInv w s1 /\ MCnt w s1 /\ mpstore s1 w = mpstore s w).
+        assert (HP : P s1); [|destruct HP as (_ & HI1 & HC1 & Hs1); auto].
+        eapply (mreact1s_ind P p); [|split; [exact Hwf|split; [exact HI|split; [exact HC|reflexivity]]]|exact Hstep].
+        intros s2 s3 (Hw2 & HI2 & HC2 & Hs2) H23. split; [eapply mstep_wf; eauto|].
+        destruct (minv_step1 w s2 (MReact1 p) s3 I Hw2 HI2 I eq_refl H23) as [HI3 Hs3].
+        destruct (mcnt_step1 w s2 (MReact1 p) s3 I Hw2 HI2 HC2 H23) as [HC3 _].
+        split; [exact HI3|]. split; [exact HC3|]. rewrite Hs3. exact Hs2.
+      - destruct (mcnt_step1 w s (MReact1 p) s1 I Hwf HI HC Hstep) as [HC1 Hb].
+        destruct (minv_step1 w s (MReact1 p) s1 I Hwf HI I Hb Hstep) as [HI1 Hs1]. auto.
+      - destruct (mcnt_step1 w s (MDeliver src dst) s1 I Hwf HI HC Hstep) as [HC1 Hb].
+        destruct (minv_step1 w s (MDeliver src dst) s1 I Hwf HI I Hb Hstep) as [HI1 Hs1]. auto.
+      - simpl in Hop1. apply bool_decide_eq_true in Hop1.
+        destruct (minv_step1 w s (MJoin c) s1 I Hwf HI I eq_refl Hstep) as [HI1 Hs1].
+        split; [exact HI1|]. split; [eapply mcnt_join; eauto|]. split; [reflexivity|exact Hs1]. }
+    destruct H1 as (HI1 & HC1 & Hb & Hs1).
+    destruct (IH s1 s' (mstep_wf _ _ _ Hwf Hstep) HI1 HC1 Hok Hops Hrun) as (Hwf' & HI' & HC' & Hsc & Hs').
+    split; [exact Hwf'|]. split; [exact HI'|]. split; [exact HC'|]. split; [rewrite Hb, Hsc; reflexivity|].
+    rewrite Hs', Hs1. apply mstore_after_lastd.
+Qed.
+
+(* drain-separated overwrites of a material by one publisher replicate; fresh clients may join in quiescent
+   states whoever the publisher is *)
+Theorem M06_drain_separated_overwrites_replicate n w tr s' :
+  mrun (minit n) tr = Some s' -> mpeers (minit n) w -> monly_publisher w tr ->
+  mops_at_quiescence (minit n) tr = true -> mquiescent s' ->
+  mknown_S7 (minit n) tr = false /\ forall q, mpeers s' q -> mpstore s' q = last (mpublished tr).
+Proof.
+  intros Hrun Hw Hop Hops Hq.
+  destruct (mds_run w tr (minit n) s' (minit_wf n) (minv_init w n Hw) (mcnt_quiescent w _ (minit_quiescent n))
+              (mev_ok_of w tr Hop) Hops Hrun) as (_ & HI & _ & Hsc & Hs).
+  split; [exact Hsc|]. intros q Hpq.
+  rewrite (minv_quiescent_agree w s' HI Hq q Hpq), Hs.
+  unfold mpstore at 1. rewrite minit_getp. apply lastd_None_last.
+Qed.
+Print Assumptions M06_drain_separated_overwrites_replicate.
+
+Lemma mplain_trace rest :
+  Forall mplain rest -> mpublished rest = [] /\ mpublishers rest = [] /\ forall s, mops_at_quiescence s rest = true.
+Proof.
+  induction 1 as [|e rest He _ (IH1 & IH2 & IH4)]; [repeat split|].
+  destruct e; simpl in He; try contradiction; (split; [exact IH1|]; split; [exact IH2|]);
+    intros s; cbn [mops_at_quiescence]; (destruct (mstep s _); [|reflexivity]); rewrite IH4; reflexivity.
+Qed.
+
+Theorem M06_first_publication_replicates n p c rest s' :
+  Forall mplain rest -> mrun (minit n) (MPublish p c :: rest) = Some s' -> mquiescent s' ->
+  forall q, mpeers s' q -> mpstore s' q = Some c.
+Proof.
+  intros Hpl Hrun Hq q Hpq. destruct (mplain_trace rest Hpl) as (H1 & H2 & H4).
+  assert (Hw : mpeers (minit n) p).
+  { cbn [mrun] in Hrun. destruct (mstep (minit n) (MPublish p c)) as [s1|] eqn:Hs; [|discriminate].
+    apply mstep_publish in Hs as (Hex & _). apply (mwf_exists _ _ (minit_wf n)). exact Hex. }
+  destruct (M06_drain_separated_overwrites_replicate n p (MPublish p c :: rest) s' Hrun Hw) as [_ Hall]; try assumption.
+  - unfold monly_publisher. simpl. rewrite H2. repeat constructor.
+  - cbn [mops_at_quiescence]. cbn [mrun] in Hrun. destruct (mstep (minit n) (MPublish p c)) as [s1|]; [|discriminate].
+    rewrite H4. simpl. rewrite andb_true_r. apply bool_decide_eq_true. apply minit_quiescent.
+  - rewrite (Hall q Hpq), mpublished_cons, H1. reflexivity.
+Qed.
+Print Assumptions M06_first_publication_replicates.
+
+Example M06_nonvacuous :
+  let tr := [MPublish 1 10; MReact 1; MDeliver 1 0; MDeliver 0 2; MReact 0; MReact 2;
+             MJoin 3; MDeliver 0 3; MReact 3;
+             MPublish 1 20; MReact 1; MDeliver 1 0; MReact 0; MDeliver 0 2; MDeliver 0 3; MReact 2; MReact 3] in
+  monly_publisher 1 tr /\ mops_at_quiescence (minit 2) tr = true /\
+  (fun s => mview s [0; 1; 2; 3]) <$> mrun (minit 2) tr = Some ([Some 20; Some 20; Some 20; Some 20], true).
+Proof. split; [unfold monly_publisher; vm_compute; repeat constructor|]. split; vm_compute; reflexivity. Qed.
+
+(* a burst outside S7 with a join in mid-flight *)
+Example M06_outside_S7_nonvacuous :
+  let tr := [MPublish 1 10; MReact 1; MPublish 1 20; MDeliver 1 0; MJoin 3; MReact 1; MReact 0; MDeliver 1 0; MReact 0;
+             MDeliver 0 3; MReact 3; MDeliver 0 3; MReact 3; MDeliver 0 2; MReact 2; MDeliver 0 2; MReact 2] in
+  monly_publisher 1 tr /\ mknown_S7 (minit 2) tr = false /\ mops_at_quiescence (minit 2) tr = false /\
+  (fun s => mview s [0; 1; 2; 3]) <$> mrun (minit 2) tr = Some ([Some 20; Some 20; Some 20; Some 20], true).
+Proof. split; [unfold monly_publisher; vm_compute; repeat constructor|]. split; [|split]; vm_compute; reflexivity. Qed.
+
+(* ---------- unbounded echo traffic ----------------------------------------------------------------- *)
+
+Lemma mrun_app s tr1 tr2 : mrun s (tr1 ++ tr2) = match mrun s tr1 with Some s1 => mrun s1 tr2 | None => None end.
+Proof. revert s. induction tr1 as [|e tr1 IH]; intros s; simpl; [reflexivity|]. destruct (mstep s e); auto. Qed.
+
+Lemma mtotal_sent_app s tr1 tr2 s1 :
+  mrun s tr1 = Some s1 -> mtotal_sent s (tr1 ++ tr2) = (mtotal_sent s tr1 + mtotal_sent s1 tr2)%nat.
+Proof.
+  revert s. induction tr1 as [|e tr1 IH]; intros s Hrun; simpl in Hrun.
+  - inversion Hrun; subst. reflexivity.
+  - cbn [app mtotal_sent]. destruct (mstep s e) as [s2|]; [|discriminate]. rewrite (IH s2 Hrun). lia.
+Qed.
+
+Fixpoint repeat_tr (k : nat) (tr : list mevent) : list mevent :=
+  match k with O => [] | S k => tr ++ repeat_tr k tr end.
+
+(* two publications of the host can cause any number of messages: the C09 style bound
+   "messages <= publications * f(n)" does NOT hold for materials outside drain separation *)
+Theorem material_traffic_unbounded :
+  forall B : nat, exists tr s',
+    mrun (minit 2) tr = Some s' /\ monly_publisher 0 tr /\ length (mpublished tr) = 2%nat /\
+    (mtotal_sent (minit 2) tr > B)%nat.
+Proof.
+  intros B.
+  assert (Hpre : mrun (minit 2) w_echo_pre = Some s_echo) by (apply (by_decide _ (dec := decide _)); vm_compute; reflexivity).
+  assert (Hloop : mrun s_echo w_echo_loop = Some s_echo) by (apply (by_decide _ (dec := decide _)); vm_compute; reflexivity).
+  assert (Hsent : mtotal_sent s_echo w_echo_loop = 6%nat) by (vm_compute; reflexivity).
+  assert (Hk : forall k, mrun s_echo (repeat_tr k w_echo_loop) = Some s_echo /\
+                         mtotal_sent s_echo (repeat_tr k w_echo_loop) = (6 * k)%nat /\
+                         mpublishers (repeat_tr k w_echo_loop) = [] /\ mpublished (repeat_tr k w_echo_loop) = []).
+  { induction k as [|k (IH1 & IH2 & IH3 & IH4)]; [repeat split|]. cbn [repeat_tr].
+    split; [rewrite mrun_app, Hloop; exact IH1|]. split; [rewrite (mtotal_sent_app _ _ _ _ Hloop), Hsent, IH2; lia|].
+    unfold mpublishers, mpublished in *. rewrite !omap_app, IH3, IH4. split; reflexivity. }
+  destruct (Hk (S B)) as (H1 & H2 & H3 & H4).
+  exists (w_echo_pre ++ repeat_tr (S B) w_echo_loop), s_echo.
+  split; [rewrite mrun_app, Hpre; exact H1|].
+  split; [unfold monly_publisher, mpublishers in *; rewrite omap_app, H3; vm_compute; repeat constructor|].
+  split; [unfold mpublished in *; rewrite omap_app, H4; reflexivity|].
+  rewrite (mtotal_sent_app _ _ _ _ Hpre), H2. lia.
+Qed.
+Print Assumptions material_traffic_unbounded.
+
+Print Assumptions C06_refuted.
+Print Assumptions C06_burst_overwrite_refuted.
+Print Assumptions C06_republish_by_other_peer_refuted.
+Print Assumptions C06_host_stale_after_join_refuted.
+Print Assumptions join_preloaded_refuted.
+Print Assumptions join_during_download_refuted.
+Print Assumptions join_before_react_refuted.
+Print Assumptions M06_refuted.
+Print Assumptions material_echo_cycle.
+Print Assumptions single_publisher_outside_S7_never_serves.
+Print Assumptions drain_separated_never_S7.
+Print Assumptions quiescent_is_drained.
